@@ -22,12 +22,18 @@ func (mgr *manager) SetGauge(data info.ModifyAttribute) error {
 	}
 	previousGauge := t.gauge
 
+	// a gauge is never taken below zero (an advance larger than what remains brings it to 0)
+	newGauge := int64(data.Amount)
+	if newGauge < 0 {
+		newGauge = 0
+	}
+
 	// if there's no change to Gauge, exit early
-	if previousGauge == int64(data.Amount) {
+	if previousGauge == newGauge {
 		return nil
 	}
 
-	t.gauge = int64(data.Amount)
+	t.gauge = newGauge
 
 	// find target index in mgr.orderHandler.turnOrder
 	targetIndex, err := mgr.orderHandler.FindTargetIndex(data.Target)
